@@ -1,7 +1,10 @@
 package c10
 
 import (
+	"fmt"
 	"math/rand/v2"
+	"strconv"
+	"strings"
 	"time"
 
 	"verifharness/internal/core"
@@ -194,6 +197,107 @@ func tickTo(r *rand.Rand, now, d0 int64, pods []PodIn) int64 {
 	return int64(r.IntN(5)+1) * sec
 }
 
+// ---------- the NodeClaim's termination-timestamp annotation ----------
+
+// zone designators a valid timestamp is rendered with (minutes east of UTC; 0 also as +00:00 / -00:00)
+var zoneChoices = []int{0, 0, 0, 120, -450, 345, -720, 840, 60, -1}
+
+// fractions of a second a valid timestamp may carry (digits after the period, and their value in ns)
+var fracChoices = []struct {
+	s  string
+	ns int64
+}{{"", 0}, {"", 0}, {".5", 500_000_000}, {".000000001", 1}, {".123456789", 123_456_789}, {".250", 250_000_000}, {".999999999", 999_999_999}, {".0", 0}}
+
+// rfc3339 renders the instant base+d (whole seconds) + frac in the given zone as an RFC 3339 timestamp
+// (upper-case T and Z, two-digit fields): the forms on which RFC 3339 and Go's time.Parse agree.
+func rfc3339(dSec int64, frac string, zoneMin int, zeroForm int) string {
+	t := base.Add(time.Duration(dSec) * time.Second).UTC().Add(time.Duration(zoneMin) * time.Minute)
+	z := "Z"
+	switch {
+	case zoneMin == 0 && zeroForm == 1:
+		z = "+00:00"
+	case zoneMin == 0 && zeroForm == 2:
+		z = "-00:00"
+	case zoneMin > 0:
+		z = fmt.Sprintf("+%02d:%02d", zoneMin/60, zoneMin%60)
+	case zoneMin < 0:
+		z = fmt.Sprintf("-%02d:%02d", -zoneMin/60, -zoneMin%60)
+	}
+	return t.Format("2006-01-02T15:04:05") + frac + z
+}
+
+// malformedAnnotations: values that are not RFC 3339 timestamps (and that time.Parse(time.RFC3339) rejects too),
+// by class, for the instant base+dSec. Deliberately NOT included: the few non-RFC-3339 forms Go's lenient
+// fallback parser accepts (one-digit hour, comma as fraction separator, zone hour 24+): outside the modelled
+// vocabulary.
+func malformedAnnotations(dSec int64) []struct{ class, v string } {
+	t := base.Add(time.Duration(dSec) * time.Second).UTC()
+	ok := t.Format("2006-01-02T15:04:05Z")
+	day := t.Format("2006-01-02")
+	return []struct{ class, v string }{
+		{"space-no-zone", t.Format("2006-01-02 15:04:05")},
+		{"space", t.Format("2006-01-02 15:04:05Z")},
+		{"no-zone", t.Format("2006-01-02T15:04:05")},
+		{"date-only", day},
+		{"unix", strconv.FormatInt(t.Unix(), 10)},
+		{"empty", ""},
+		{"duration", "1h"},
+		{"rfc1123", t.Format(time.RFC1123)},
+		{"go-string", t.String()},
+		{"zone-no-colon", t.In(time.FixedZone("", 7200)).Format("2006-01-02T15:04:05Z0700")},
+		{"zone-hour-only", t.Format("2006-01-02T15:04:05") + "+02"},
+		{"lower-case", strings.ToLower(ok)},
+		{"trailing", ok + " "},
+		{"leading", " " + ok},
+		{"trailing-text", ok + "UTC"},
+		{"feb-30", t.Format("2006") + "-02-30T08:00:00Z"},
+		{"month-13", t.Format("2006") + "-13-01T08:00:00Z"},
+		{"month-0", t.Format("2006") + "-00-10T08:00:00Z"},
+		{"day-0", t.Format("2006-01") + "-00T08:00:00Z"},
+		{"hour-24", day + "T24:00:00Z"},
+		{"minute-60", day + "T08:60:00Z"},
+		{"second-60", day + "T08:59:60Z"},
+		{"unpadded", t.Format("2006-1-2T15:04:05Z")},
+		{"short-year", t.Format("06-01-02T15:04:05Z")},
+		{"long-year", "1" + ok},
+		{"bare-fraction", t.Format("2006-01-02T15:04:05") + ".Z"},
+		{"fullwidth-digits", "２０２７" + t.Format("-01-02T15:04:05Z")},
+		{"word", "never"},
+		{"zone-only", "Z"},
+	}
+}
+
+// genNodeStep draws a controller-driven drain pass: the deadline `d` (or none) as the generator intends it, and how
+// the NodeClaim presents it. Distribution: 50 % annotation derived from `d` (RFC 3339 in UTC / absent),
+// 22 % a valid timestamp in another zone and/or with a fraction, 18 % a value that is not a timestamp,
+// 5 % no NodeClaim, 5 % duplicate NodeClaims.
+func genNodeStep(r *rand.Rand, d *int64) Step {
+	s := Step{K: "node", D: d}
+	dSec := int64(600)
+	if d != nil {
+		dSec = floorSec(*d)
+	}
+	switch x := r.IntN(100); {
+	case x < 50:
+	case x < 72:
+		if d == nil {
+			break
+		}
+		f := pick(r, fracChoices)
+		s.A = pstr(rfc3339(dSec, f.s, pick(r, zoneChoices), r.IntN(3)))
+		s.D = nil
+	case x < 90:
+		m := pick(r, malformedAnnotations(dSec))
+		s.A = pstr(m.v)
+		s.D = nil
+	case x < 95:
+		s.C = "none"
+	default:
+		s.C = "dup"
+	}
+	return s
+}
+
 func genHistory(r *rand.Rand, t core.Tier, ctl bool) HistIn {
 	now := int64(r.IntN(1000))*sec + pick(r, []int64{0, 0, 0, 1, sec / 2, sec - 1})
 	d0 := genD0(r, now)
@@ -238,6 +342,9 @@ func genHistory(r *rand.Rand, t core.Tier, ctl bool) HistIn {
 				}
 			} else if r.IntN(100) < 4 {
 				s.D = p64(d0)
+			}
+			if ctl {
+				s = genNodeStep(r, s.D)
 			}
 			in.Steps = append(in.Steps, s)
 		case x < 72:
@@ -466,4 +573,52 @@ func genDrain(r *rand.Rand, t core.Tier) any {
 		in.Steps = append(in.Steps, s2)
 	}
 	return in
+}
+
+// ---------- controller passes ----------
+
+// enumController: every presentation of the node deadline (derived annotation, every zone x fraction form, every
+// malformed class, no annotation, no NodeClaim, duplicate NodeClaims) x clock before / after the pods' thresholds,
+// over a PDB-blocked plain pod, a do-not-disrupt pod with a long grace period and a critical pod: one controller
+// pass, a reconcile of each pod, a second pass.
+func enumController(core.Tier) []any {
+	var out []any
+	dSec := int64(1000)
+	pods := func() []PodIn {
+		a := classPod(false, false)
+		b := classPod(false, false)
+		b.Dnd = pstr("true")
+		b.Grace = p64(3600)
+		c := classPod(true, false)
+		return []PodIn{a, b, c}
+	}
+	var heads []Step
+	heads = append(heads, Step{K: "node", D: p64(dSec * sec)}, Step{K: "node"}, Step{K: "node", C: "none", D: p64(dSec * sec)}, Step{K: "node", C: "dup", D: p64(dSec * sec)})
+	for _, z := range []int{0, 120, -450, 345, 840, -1} {
+		for _, f := range fracChoices[1:] {
+			for zf := 0; zf < 3; zf++ {
+				if z != 0 && zf > 0 {
+					continue
+				}
+				heads = append(heads, Step{K: "node", A: pstr(rfc3339(dSec, f.s, z, zf))})
+			}
+		}
+	}
+	for _, m := range malformedAnnotations(dSec) {
+		heads = append(heads, Step{K: "node", A: pstr(m.v)})
+		heads = append(heads, Step{K: "node", A: pstr(m.v), C: "dup"})
+	}
+	for _, h := range heads {
+		for _, now := range []int64{(dSec - 100) * sec, (dSec-30)*sec + 1, (dSec + 5) * sec} {
+			in := HistIn{Now: now, Pods: pods()}
+			in.Steps = []Step{h,
+				{K: "rec", P: 0, Eo: "429", Do: "ok"}, {K: "rec", P: 1, Eo: "ok", Do: "ok"}, {K: "rec", P: 2, Eo: "ok", Do: "ok"},
+				h, {K: "rec", P: 2, Eo: "ok", Do: "ok"}}
+			for i := range in.Steps {
+				in.Steps[i].Ps = []int{}
+			}
+			out = append(out, in)
+		}
+	}
+	return out
 }
